@@ -642,7 +642,7 @@ def oracle(c, out):
     if st >= 400 or out.get("error"):
         if out.get("error") not in REGISTERED:
             bad(f"{c['t']}/{ep}: error code {out.get('error')!r} is not a registered error code", kind="unregistered-error", error=str(out.get("error")))
-        if c["t"] != "oauth1" and not desc_ok(out.get("description") or ""):
+        if c["t"] not in ("oauth1", "flask1") and not desc_ok(out.get("description") or ""):
             bad(f"{c['t']}/{ep}: error_description {out['description'][:60]!r} leaves the RFC 6749 character set", kind="description-charset")
         if st < 400 and not out.get("redirected"):
             bad(f"{c['t']}/{ep}: error {out['error']} answered with status {st}", kind="status-misfit")
